@@ -6,7 +6,7 @@
 patch="$1"; tier="$2"; shift 2
 S=$(mktemp -d /tmp/mr.XXXXXX)
 git -C /repo worktree add -q --detach "$S/repo" HEAD || exit 2
-if ! git -C "$S/repo" apply "$patch"; then echo "PATCH DOES NOT APPLY"; git -C /repo worktree remove --force "$S/repo"; rm -rf "$S"; exit 2; fi
+if ! git -C "$S/repo" apply "$patch" 2>/dev/null && ! git -C "$S/repo" apply --3way "$patch"; then echo "PATCH DOES NOT APPLY"; git -C /repo worktree remove --force "$S/repo"; rm -rf "$S"; exit 2; fi
 cp -r /verif/coq "$S/coq"
 for p in "$@"; do
   VERIF_REPO="$S/repo" VERIF_COQ="$S/coq" VERIF_WORK="$S/work" timeout 3000 /verif/check "$p" --tier "$tier" > "$S/$p.log" 2>&1
